@@ -368,7 +368,7 @@ pub fn cases(o: &mut Outcome, rng: &mut Rng, thorough: bool) {
     // (a) every formatting on the fixed item lists
     let fixed = fixed_item_lists();
     let fmts = all_formattings(thorough);
-    k.oracle_every = if thorough { 2 } else { 4 };
+    k.oracle_every = if thorough { 2 } else { 6 };
     for f in &fmts {
         for (li, items) in fixed.iter().enumerate() {
             // the second configuration (narrow page) on a rotating third of the lists in quick
@@ -386,26 +386,27 @@ pub fn cases(o: &mut Outcome, rng: &mut Rng, thorough: bool) {
     let few = few_formattings();
     let u2 = item_universe(2);
     let u1 = item_universe(1);
-    k.oracle_every = if thorough { 3 } else { 7 };
-    for f in &few {
-        for x in &u2 {
+    k.oracle_every = if thorough { 3 } else { 12 };
+    for (fi, f) in few.iter().enumerate() {
+        for (xi, x) in u2.iter().enumerate() {
             k.write(std::slice::from_ref(x), f, base, &configs[0]);
-            k.write(std::slice::from_ref(x), f, cfgs[3], &configs[3]);
+            if thorough || (xi + fi) % 2 == 0 {
+                k.write(std::slice::from_ref(x), f, cfgs[3], &configs[3]);
+            }
         }
     }
-    // two items: the full universe in thorough, the reduced one squared in quick
-    let pair_u: &Vec<hl::Item> = if thorough { &u2 } else { &u1 };
-    let pair_f: Vec<&hl::Formatting> = if thorough { few.iter().collect() } else { few.iter().step_by(2).collect() };
+    // two items: the reduced universe squared
+    let pair_f: Vec<&hl::Formatting> = few.iter().step_by(if thorough { 1 } else { 6 }).collect();
     for f in &pair_f {
-        for x in pair_u {
-            for y in pair_u {
+        for x in &u1 {
+            for y in &u1 {
                 k.write(&[x.clone(), y.clone()], f, base, &configs[0]);
             }
         }
     }
     // three items over the reduced universe thinned to the shapes that interact (post-comments, multi-line, empty)
-    let tri: Vec<hl::Item> = u1.iter().filter(|x| !x.new_lines || x.post_comment.is_some()).step_by(if thorough { 2 } else { 5 }).cloned().collect();
-    for f in few.iter().step_by(if thorough { 2 } else { 4 }) {
+    let tri: Vec<hl::Item> = u1.iter().filter(|x| !x.new_lines || x.post_comment.is_some()).step_by(if thorough { 4 } else { 8 }).cloned().collect();
+    for f in few.iter().skip(1).step_by(if thorough { 4 } else { 8 }) {
         for x in &tri {
             for y in &tri {
                 for z in &tri {
@@ -415,24 +416,29 @@ pub fn cases(o: &mut Outcome, rng: &mut Rng, thorough: bool) {
         }
     }
 
-    // definitive_tactic / total width: every list of 0..=2 items of the full universe x tactics x widths
-    for x in &u2 {
+    // definitive_tactic / total width: lists of 1 and 2 items x tactics x widths around the measured width
+    for x in u2.iter().step_by(if thorough { 1 } else { 2 }) {
         k.total_width(std::slice::from_ref(x));
+        let tw = hl::total_width(std::slice::from_ref(x)).1;
         for t in [(0u8, 0usize), (1, 0), (2, 0), (3, 0), (3, 5), (3, 200), (4, 0)] {
             for sep in 0..2u8 {
-                for w in [0usize, 1, 4, 5, 6, 12, 13, 14, 100] {
+                for w in [0usize, tw.saturating_sub(1), tw, tw + 1, 5, 100] {
                     k.tactic(std::slice::from_ref(x), t, sep, w);
                 }
             }
         }
     }
     for x in u1.iter() {
-        for y in u1.iter().step_by(if thorough { 1 } else { 3 }) {
+        for y in u1.iter().step_by(if thorough { 2 } else { 10 }) {
             let items = [x.clone(), y.clone()];
             k.total_width(&items);
+            let tw = hl::total_width(&items).1;
             for t in [(2u8, 0usize), (3, 9), (4, 0)] {
-                for w in [0usize, 7, 8, 9, 10, 11, 20, 21, 22, 23, 40] {
-                    k.tactic(&items, t, (w % 2) as u8, w);
+                for sep in 0..2u8 {
+                    // the boundary: total + one separator (2 or 3 columns)
+                    for w in [tw, tw + 1, tw + 2, tw + 3, 9, 40] {
+                        k.tactic(&items, t, sep, w);
+                    }
                 }
             }
         }
